@@ -493,6 +493,9 @@ func TestVerifC05Close(t *testing.T) {
 		if !ok {
 			t.Fatalf("unknown channel type %q", tname)
 		}
+		// uneven funding split: the Cfg record carries the non-opener's share (msat)
+		poor := int64(evs[0].X)
+		VerifSetPoorShare(poor / 1000)
 		alice, bob, err := CreateTestChannels(t, ctype)
 		if err != nil {
 			t.Fatal(err)
@@ -510,7 +513,7 @@ func TestVerifC05Close(t *testing.T) {
 		ndup := 0
 		npre := 0
 
-		out.Emit(vLine{vEv: vEv{A: "Reset", P: "A"}, Type: tname, Opener: opener, File: filepath.Base(f),
+		out.Emit(vLine{vEv: vEv{A: "Reset", P: "A"}, Type: tname, Opener: opener, File: filepath.Base(f), Poor: poor,
 			Dust: map[string]int64{
 				opener:    int64(alice.channelState.LocalChanCfg.DustLimit),
 				nonOpener: int64(bob.channelState.LocalChanCfg.DustLimit)},
